@@ -571,6 +571,24 @@ pub fn gen_mode(d: &mut Dec, p: &GenParams, name: &str) -> ModeSpec {
         pats[i].rx = rep(plain, d);
         pats[j].rx = rep(doubled, d);
     }
+    if pats.len() >= 2 && d.chance(5) {
+        // one character as the only item of a bracket and as an escaped literal outside brackets,
+        // in two patterns of one scanner; for the dot the two differ (`[.]` is everything except
+        // \n and \r in scnr, `\.` the dot itself), for the others they must be one language
+        let c = *d.pick(&['.', '.', '.', '+', '*', '-', '$', 'a']);
+        let in_form = if c == '.' && d.chance(200) { LitForm::BareDot } else { LitForm::Verbatim };
+        let out_form = d.pick(&[LitForm::Backslash, LitForm::HexFixed, LitForm::UBrace]).clone();
+        let bracket = Rx::Class(Class::Bracket(Bracket {
+            negated: false,
+            set: ClassSet::Items(vec![ClassItem::Lit(c, in_form)]),
+        }));
+        let lit = Rx::Lit(c, out_form);
+        let i = d.below(pats.len());
+        let j = (i + 1 + d.below(pats.len() - 1)) % pats.len();
+        let rep = |r: Rx, d: &mut Dec| if d.bool() { Rx::Repeat(Box::new(r), 1, None) } else { r };
+        pats[i].rx = rep(bracket, d);
+        pats[j].rx = rep(lit, d);
+    }
     if pats.len() >= 2 && d.chance(12) {
         // two patterns with the same expression (different token types, perhaps a lookahead)
         let i = d.below(pats.len());
